@@ -117,10 +117,24 @@ def instrument(cls):
 
 # {{{ mapper pairs: name -> (make cached instance, make fresh reference, takes extra args)
 
+class _Ctx(dict):
+    """a context whose look-ups are computed: y is not stored, it is supplied on demand, and
+    every look-up of x goes through __getitem__"""
+
+    def __missing__(self, key):
+        if key == "y":
+            return 4
+        raise KeyError(key)
+
+    def __getitem__(self, key):
+        v = dict.__getitem__(self, key)
+        return v + 0 if key == "x" else v
+
+
 def _ctx():
     def f(a, b):
         return 2 * a + b
-    return {"x": 3, "y": 4, "f": f, "arr": {4: 5, 4.0: 5}}
+    return _Ctx({"x": 3, "f": f, "arr": {4: 5, 4.0: 5}})
 
 
 def pairs():
@@ -397,10 +411,17 @@ class C05(Check):
             m = make_c()
             m._vf_log = []
             res = None
+            def guarded(fn, *a, **k):
+                try:
+                    return fn(*a, **k)
+                except RecursionError:
+                    raise
+                except Exception as e:  # noqa: BLE001
+                    return ("str", f"raised {type(e).__name__}")     # compared like a result
             for (i, j) in hist:
-                res = m(pool_obj(i), *args[j][0], **dict(args[j][1]))
+                res = guarded(m, pool_obj(i), *args[j][0], **dict(args[j][1]))
             i, j = hist[-1]
-            want = make_p()(pool_obj(i), *args[j][0], **dict(args[j][1]))
+            want = guarded(make_p(), pool_obj(i), *args[j][0], **dict(args[j][1]))
             r.evals += 1
             got_n, want_n = norm_result(res), norm_result(want)
             if got_n != want_n:
